@@ -277,10 +277,12 @@ def finish(ctx, seed=0, evidence_dir=None, explanation="", technique="", quiet=F
                                 f"confirmed by hand: the rule would pass vacuously")
     known, fixed = load_known()
     viols, kf = [], []
+    vseen = set()
     for f in ctx.findings:
         if (ctx.prop, f.key) in known:
             kf.append((f, known[(ctx.prop, f.key)]))
-        else:
+        elif (f.key, f.detail) not in vseen:          # one report per construct, however many paths reach it
+            vseen.add((f.key, f.detail))
             viols.append(f)
     out = []
     seen = set()
